@@ -165,7 +165,7 @@ func main() {
 	w := cv.NewWriter(*out, "C17", header, "case", "mismatches", 16)
 	nOff, nOn := 150, 30
 	if thorough {
-		nOff, nOn = 1500, 200
+		nOff, nOn = 3000, 400
 	}
 	if raceEnabled {
 		nOff, nOn = nOff*2/3, nOn*2/3
@@ -218,7 +218,7 @@ func main() {
 	gs := []int{2, 4, 8, 32}
 	ps := []int{1, 2, 4, 16}
 	if thorough {
-		for rep := 0; rep < 3; rep++ {
+		for rep := 0; rep < 6; rep++ {
 			for _, g := range gs {
 				for _, p := range ps {
 					for _, l := range []bool{false, true} {
